@@ -24,7 +24,7 @@ import numpy as np
 from .. import tlc
 from . import constellation_common as cc
 
-CARE = ["Rejects", "Accepts", "WellFormed", "Bijective", "UnitEnergy", "IndexRaises", "ModulateOk", "ModulateLaw",
+CARE = ["Rejects", "Accepts", "WellFormed", "Bijective", "UnitEnergy", "BitsPerSymbol", "IndexRaises", "ModulateOk", "ModulateLaw",
         "ShapeKept", "MLDetection", "RoundTrip", "Unchecked",
         # frame laws of notes/CALL_DISCIPLINE.md
         "EarlierResultsUnchanged", "ArgumentsUnchanged", "ResultNotAliased", "RejectedChangesNothing"]
@@ -191,6 +191,35 @@ def check_rows(ctx, live, rows, label, present=None, frame=None):
         nbad += len(wrong)
         for i in range(0, len(exp), max(1, len(exp) // 200)):        # a bounded number of identifying keys
             ctx.distinct.add((live.kind, live.M, live.step, d, str(items[i])))
+        # the same samples in other STORAGE TYPES of the received array (the law is about values): complex64 and, for the
+        # samples on the real axis, a real float64 array; and as a read-only array.  Only grid rows at D <= 8 (margin 1/8
+        # unit / sector, far above float32 resolution) and moderate radii.
+        if base["smode"] == "grid" and d <= 8 and len(z):
+            mod_ok = (np.abs(z) > 0.3) & (np.abs(z) < 5)
+            ro = z.copy()
+            ro.setflags(write=False)
+            variants = [("complex64", z[mod_ok].astype(np.complex64), np.nonzero(mod_ok)[0]),
+                        ("float64 (real axis)", np.ascontiguousarray(z[z.imag == 0].real), np.nonzero(z.imag == 0)[0]),
+                        ("float32 (real axis)", z[(z.imag == 0) & mod_ok].real.astype(np.float32), np.nonzero((z.imag == 0) & mod_ok)[0]),
+                        ("read-only complex128", ro, np.arange(len(z)))]
+            for name, arr, ix in variants:
+                if not len(ix):
+                    continue
+                try:
+                    g2 = cc.demod_chunked(live.obj, arr)
+                    w2 = np.nonzero(g2 != exp[ix])[0]
+                except Exception as ex:
+                    ctx.violation(f"{label}: demodulate of a {name} array raised {type(ex).__name__}: {ex}",
+                                  dict(base, s=[items[int(ix[0])]], near=[near[int(ix[0])]], present=None, dtype=name))
+                    nbad += 1
+                    continue
+                if len(w2):
+                    i = int(ix[w2[0]])
+                    ctx.violation(f"{label}: demodulate(sample {items[i]} /{d}) stored as {name} = {int(g2[w2[0]])}, nearest point {near[i]} carries "
+                                  f"label {int(exp[i])} ({len(w2)} of {len(ix)} wrong)", dict(base, s=[items[i]], near=[near[i]], present=None, dtype=name))
+                    nbad += len(w2)
+                else:
+                    ctx.ok((label, "dtype", name), n=len(ix))
         if live.step == 0 and base["smode"] in ("grid", "seeded") and (live.kind, live.M) not in _long_done:
             _long_done.add((live.kind, live.M))         # once per modulator class and order
             nbad += check_long(ctx, live, z, exp, near, items, label, base)
@@ -267,6 +296,15 @@ def history_specs(ctx):
     for M in cc.PSK_ORDERS:
         ph = [float(rng.choice([0.0, math.pi / M, 0.3])), float(rng.uniform(-7, 7)), float(rng.choice([0.0, math.pi / 4, 100.0]))]
         specs.append(dict(kind="PSK", M=M, seed=s, d=64, nsamp=(300 if th else 100) if M <= 256 else (160 if th else 60), phases=ph))
+    # the cardinality given as a numpy integer scalar (same verdict as for the Python int), and negative cardinalities
+    for kind, M, mt in (("QAM", 16, "uint8"), ("QAM", 64, "int8"), ("QAM", 256, "int64"), ("QAM", 4096, "uint16"), ("PSK", 8, "uint8"),
+                        ("PSK", 128, "uint8"), ("PSK", 1024, "int16"), ("PSK", 2, "int64"), ("QAM", 8, "uint8"), ("PSK", 12, "int64"),
+                        ("PSK", 255, "uint8"), ("QAM", 100, "int16")):
+        specs.append(dict(kind=kind, M=M, mtype=mt, seed=s, d=64, nsamp=24) if M in (8, 16, 64) and cc.spec_kind(kind) and (kind, M) in (("QAM", 16), ("PSK", 8), ("QAM", 64))
+                     else dict(kind=kind, M=M, mtype=mt, calls=False))
+    for M in (-1, -2, -4, -16, -64):
+        for kind in ("PSK", "QAM"):
+            specs.append(dict(kind=kind, M=M, calls=False))
     # constructor outcome for every cardinality
     for M in list(range(0, 1101)) + [2048, 4095, 4097]:
         for kind in ("PSK", "QAM"):
